@@ -76,6 +76,30 @@ def sync(names=None):
         return sync_tables.run(names)
 
 
+SYNC_OUTPUTS = {   # translator module -> the Gen file it writes (what a proof cone can depend on)
+    "instr": "Gen/Instr.v", "tokentypes": "Gen/TokenTypes.v", "defs": "Gen/Defs.v", "tokens": "Gen/Tokens.v",
+    "dispatch": "Gen/Dispatch.v", "dispatch_strict": "Gen/Dispatch.v", "truth": "Gen/Truth.v", "execmap": "Gen/Exec.v",
+    "cmptable": "Gen/CmpTable.v", "eqtable": "Gen/EqTable.v", "storecells": "Gen/StoreCells.v",
+    "panicsites": "Gen/PanicSites.v",
+}
+
+
+def sync_cone(targets):
+    """Regenerate every table, but report translator errors only for the tables the given .vo targets
+    depend on (so that a table this property does not use cannot break its tie)."""
+    r = sync()
+    cone = dependency_cone(targets)
+    if cone is None:
+        return r
+    cone = set(cone)
+    keep = {}
+    for name, err in r["errors"].items():
+        out = SYNC_OUTPUTS.get(name)
+        if out is None or out in cone:
+            keep[name] = err
+    return {"changed": r["changed"], "errors": keep, "ignored_errors": {k: v for k, v in r["errors"].items() if k not in keep}}
+
+
 # ----------------------------------------------------------------- coq side
 def coq_makefile():
     import gen_coqproject
